@@ -116,7 +116,7 @@ def padsep_str(rng, t, uk, with_time):
     a, b = (t.day, t.month) if uk else (t.month, t.day)
     f = '%02d' if rng.random() < 0.5 else '%d'
     s1, s2 = rng.choice('/-. '), rng.choice('/-. ')
-    pads = ['', ' ', '  ']
+    pads = ['', ' ', '  '] if rng.random() < 0.9 else ['', ' ', '\t', ' \t']     # the regex says \s*: tabs now and then
     while True:
         l1, r1, l2, r2 = (rng.choice(pads) for _ in range(4))
         if l1 or r1 or l2 or r2:
